@@ -860,11 +860,11 @@ func constStr(t *Term) string {
 
 // smtPrinter emits define-funs for shared sub-terms into a solver session.
 type smtPrinter struct {
-	names map[*Term]string
+	names  map[*Term]string
 	byExpr map[string]string
-	decls map[string]bool
-	out   *strings.Builder
-	n     int
+	decls  map[string]bool
+	out    *strings.Builder
+	n      int
 }
 
 func newSMTPrinter() *smtPrinter {
